@@ -274,11 +274,12 @@ pub mod collections {
             if let Some(i) = self.pos(&k) {
                 return Some(core::mem::replace(&mut self.items[i].1, v));
             }
-            let mut at = 0;
-            while at < self.items.len() && self.items[at].0 < k {
-                at += 1;
+            self.items.push((k, v));
+            let mut at = self.items.len() - 1;
+            while at > 0 && self.items[at].0 < self.items[at - 1].0 {
+                self.items.swap(at, at - 1);
+                at -= 1;
             }
-            self.items.insert(at, (k, v));
             None
         }
         pub fn remove(&mut self, k: &K) -> Option<V> {
@@ -312,11 +313,13 @@ pub mod collections {
             let idx = match self.map.pos(&self.key) {
                 Some(i) => i,
                 None => {
-                    let mut at = 0;
-                    while at < self.map.items.len() && self.map.items[at].0 < self.key {
-                        at += 1;
+                    // append, then bubble the new pair down to its sorted position (swaps only: no memmove)
+                    self.map.items.push((self.key, V::default()));
+                    let mut at = self.map.items.len() - 1;
+                    while at > 0 && self.map.items[at].0 < self.map.items[at - 1].0 {
+                        self.map.items.swap(at, at - 1);
+                        at -= 1;
                     }
-                    self.map.items.insert(at, (self.key, V::default()));
                     at
                 }
             };
